@@ -4,7 +4,8 @@ the field boundaries, nested if/while/for, arrays updated element-wise, calls,
 signals, components (declarations `component c = X(..)`, component arrays, port
 writes `c.in <== e`, port reads `c.out`, `c.out[i]`), array and signal dimensions
 that read variables, signals declared under control flow, loops whose trip count
-depends on a signal. Mostly valid programs plus a small invalid stream
+depends on a signal, locals re-declared in nested scopes (bare blocks, branches,
+loop bodies) next to look-alike names `<id>_<k>` of their internal names. Mostly valid programs plus a small invalid stream
 (uninitialised reads). Which of these features a run really produced is counted
 on the implementation's dumps by `propeng.features_of`, not here."""
 import random
@@ -134,6 +135,14 @@ class Gen:
         if prefix == "v" and self.depth_now > 0 and self.outer_names and self.r.random() < 0.3:
             self.features.add("shadowing")
             return self.r.choice(self.outer_names)
+        vs = [x for x in self.locals + self.outer_names if x.startswith("v")]
+        if prefix == "v" and vs and self.r.random() < 0.12:
+            # a look-alike of the internal name of a re-declared variable: `<id>_<k>` (the k-th re-declaration of <id> is
+            # renamed to <id> with suffix k, printed <id>_<k>)
+            cand = "%s_%d" % (self.r.choice(vs), self.r.choice([0, 0, 0, 1, 1, 2]))
+            if cand not in self.locals and cand not in self.uninit and cand not in self.outer_names:
+                self.features.add("lookalike-name")
+                return cand
         self.counter += 1
         return "%s%d" % (prefix, self.counter)
 
@@ -184,12 +193,15 @@ class Gen:
             saved_outer = list(self.outer_names)
             self.outer_names = [x for x in self.locals if x.startswith("v")]
             self.depth_now += 1
-            out = ["%sif %s {" % (ind, self.cond(1))]
+            bare = r.random() < 0.2          # a bare nested block `{ .. }`: a scope without a branch (no phi)
+            if bare:
+                self.features.add("bare-block")
+            out = ["%s{" % ind] if bare else ["%sif %s {" % (ind, self.cond(1))]
             for _ in range(r.randrange(1, 3)):
                 out += self.stmt(depth - 1, in_loop)
             self.locals, un1, self.arrays = list(saved[0]), self.uninit, list(saved[2])
             self.sig_mid, self.comps = list(saved_sig[0]), list(saved_sig[1])
-            if r.random() < 0.5:
+            if not bare and r.random() < 0.5:
                 self.features.add("else")
                 out.append("%s} else {" % ind)
                 self.uninit = list(saved[1])
@@ -504,7 +516,56 @@ def signal_loop_shape(rng, lit, k=None):
     return ("function f(a, n) { var i = 0; var x = 1; var y = 0; while (i < a) { y = a * %s; x = x * 2; i += 1; } if (y == %s) { return x; } return y + %s; }" % (rng.choice(["a", "n", "2"]), lit(), rng.choice(["x", "i", "a"])))
 
 
-FEATURE_SHAPES = [(component_shape, 9), (dimension_shape, 7), (nested_signal_shape, 6), (signal_loop_shape, 6)]
+def lookalike_shape(rng, lit, k=None):
+    """A local re-declared in a nested scope (bare block, branch, loop body, sibling scopes) is renamed internally to
+    <id> with suffix k and PRINTED `<id>_<k>`; next to it a different variable whose source name is literally `<id>_<k>`
+    (`x_0`, `x_1`, `x_10`, `x0_0`, `x_0_1`). At equal SSA versions one of the two holds a constant and the other does
+    not (a parameter, a signal, a merged value); the non-constant one is then read in a condition, an array size or a
+    `<--`. A table keyed by the printed name instead of (name, suffix, version) attributes the constant to both."""
+    k = rng.randrange(12) if k is None else k
+    sm = lambda: str(rng.randrange(1, 5))
+    c1, c2 = sm(), sm()
+    idn = rng.choice(["x", "x", "acc", "x0", "t_1"])
+    la = idn + "_0"
+    if k == 0:     # the demo: bare block, the look-alike holds the parameter, read in a condition
+        return ("function pick(n) { var %s = 1; var %s = n; var r = 0; { var %s = %s; r = %s; } if (%s == %s) { r += 1; } return r + %s; }"
+                % (idn, la, idn, c1, idn, la, c1, idn))
+    if k == 1:     # the converse: the look-alike is the constant, the re-declared variable is not; read inside the block
+        return ("function pick(n) { var %s = 1; var %s = %s; var r = 0; { var %s = n; if (%s == %s) { r = 1; } r += %s; } return r + %s; }"
+                % (idn, la, c1, idn, idn, c1, idn, la))
+    if k == 2:     # re-declarations in both branches of an if/else: suffixes 0 and 1
+        return ("function f(n, m) { var %s = 0; var %s_0 = n; var %s_1 = m; var r = 0; if (n > %s) { var %s = %s; r = %s; } else { var %s = %s; r = %s + 1; } "
+                "if (%s_0 == %s) { r += 1; } if (%s_1 == %s) { r += 2; } return r; }"
+                % (idn, idn, idn, sm(), idn, c1, idn, idn, c2, idn, idn, c1, idn, c2))
+    if k == 3:     # re-declaration in a loop body; the look-alike is an array size and an index
+        return ("function f(n) { var %s = 1; var %s = n; var r = 0; for (var i = 0; i < %s; i++) { var %s = %s; r += %s; } var t[%s]; t[0] = r; return t[0] + %s; }"
+                % (idn, la, rng.choice(["2", "n"]), idn, c1, idn, la, la))
+    if k == 4:     # template: the look-alike holds a signal expression and is the right-hand side of `<--`
+        return ("template T(n) { signal input a; signal output out; var %s = 1; var %s = a * a; { var %s = %s; out <-- %s * %s; } signal b; b <-- %s + %s; }"
+                % (idn, la, idn, c1, idn, la, la, idn))
+    if k == 5:     # template: re-declaration under a branch on a parameter, look-alike from a signal, read in a condition and a size
+        return ("template T(n) { signal input a; signal output out; var %s = %s; var %s = n + 1; if (n > %s) { var %s = %s; out <-- %s * a; } else { out <-- a; } "
+                "signal s[%s]; if (%s == %s) { s[0] <-- a; } }"
+                % (idn, c2, la, sm(), idn, c1, idn, la, la, c1))
+    if k == 6:     # sibling scopes: the eleventh re-declaration gets suffix 10
+        blocks = " ".join("{ var x = %d; r += x; }" % (j + 1) for j in range(11))
+        return ("function f(n) { var x = 0; var x_10 = n; var x_1 = n + 1; var r = 0; %s if (x_10 == 11) { r += 1; } if (x_1 == 2) { r += 2; } return r; }" % blocks)
+    if k == 7:     # a variable called x_0 re-declared: internal name x_0 with suffix 0 or 1, look-alikes x_0_0 / x_0_1, next to x itself re-declared
+        return ("function f(n) { var x = 1; var x_0 = 2; var x_0_0 = n; var x_0_1 = n * 2; var r = 0; { var x_0 = %s; r += x_0; } { var x_0 = %s; r += x_0; } { var x = %s; r += x; } "
+                "if (x_0_0 == %s) { r += 1; } if (x_0_1 == %s) { r += 2; } if (x_0 == %s) { r += 4; } return r; }" % (c1, c2, c1, c1, c2, c1))
+    if k == 8:     # both reassigned once more, so that they collide at version 1 as well
+        return ("function f(n) { var %s = 1; var %s = 0; %s = n; var r = 0; { var %s = 0; %s = %s; r = %s; } if (%s == %s) { r += 1; } return r; }"
+                % (idn, la, la, idn, idn, c1, idn, la, c1))
+    if k == 9:     # nested twice: suffixes 0 and 1 in nested scopes, the look-alikes merged at a join
+        return ("function f(n) { var x = 1; var x_0 = 0; var x_1 = 0; if (n > %s) { x_0 = n; x_1 = n; } var r = 0; { var x = %s; { var x = %s; r = x; } r += x; } "
+                "if (x_0 == %s) { r += 1; } if (x_1 == %s) { r += 2; } return r; }" % (sm(), c1, c2, c1, c2))
+    if k == 10:    # digits without an underscore are NOT look-alikes (x0 vs x with suffix 0): must stay silent
+        return ("function f(n) { var x = 1; var x0 = n; var x_ = n; var r = 0; { var x = %s; r = x; } if (x0 == %s) { r += 1; } if (x_ == %s) { r += 1; } return r; }" % (c1, c1, c1))
+    return ("template T(n) { signal input a; signal output out; var %s = 1; var %s = %s; var i = 0; while (i < n) { var %s = a; out <-- %s * %s; i += 1; } signal s[%s + 1]; }"
+            % (idn, la, c1, idn, idn, la, la))
+
+
+FEATURE_SHAPES = [(component_shape, 9), (dimension_shape, 7), (nested_signal_shape, 6), (signal_loop_shape, 6), (lookalike_shape, 12)]
 
 
 def feature_stratum(rng, curve="BN254"):
@@ -520,7 +581,9 @@ def targeted(rng, curve="BN254"):
     values merged at joins, loops, every operator on constants)."""
     p = PRIMES[curve]
     lit = lambda: str(rng.choice([0, 1, 2, 3, 5, p - 1, p // 2, p // 2 + 1, 255, 256, 1 << 20]))
-    k = rng.randrange(38)
+    k = rng.randrange(41)
+    if k >= 38:
+        return lookalike_shape(rng, lit)
     if k >= 35:
         return signal_loop_shape(rng, lit)
     if k >= 32:
